@@ -19,7 +19,7 @@ LEVEL = 'exploration'
 RULE = ('mixed_rank_graph (in-process pool) on every string frame with 2 feature columns + label, n<=3 (quick) / n<=4 (thorough) rows, every '
         'combination of per-column partitions (RGS(n)^3) instantiated with two value maps over {"", 0, 10, 9, ü, "a b"} (sorted-order coding differs from '
         'numeric order), label first/middle/last, heuristics {MI, MI-numba-randomized, MI-numba-3mr, max-value-coverage, AMI, correlation-Pearson, Constant} '
-        'x target-only/pairwise; every emitted triplet compared with an independent reference on my own coding; a directed max-value-coverage family '
+        'x target-only/pairwise; every emitted triplet compared with an independent reference on my own coding; one 900-row frame with 300 / 140 categories (int16 codes); a directed max-value-coverage family '
         '(hash-slot collisions, int8/int16 code dtypes, a 26x26 grid of code magnitudes around powers of ten and two); every documented non-surrogate heuristic name must not degrade to a constant; sequence differential: every sequence of <= 3 batches from a 5-frame menu (same column names, unseen values, other row counts) in one process state vs a pristine state. '
         'distinct_nontrivial = (frame, heuristic, mode) cases whose reference scores take >= 2 distinct values')
 ASSUMPTIONS = ['scikit-learn adjusted_mutual_info_score and numpy.corrcoef are trusted as references for AMI / Pearson',
@@ -191,6 +191,32 @@ def _coverage(_):
     return st
 
 
+def _midcard(_):
+    """columns with 300 categories (int16 codes) and a 3-class label, 900 rows: every heuristic, both modes, against the references"""
+    from mc.checks.c09 import lcg_stream
+    st = Stats()
+    g = lcg_stream(99)
+    n = 900
+    f1 = [f'v{next(g) % 300:03d}' for _ in range(n)]
+    lab = [str((int(v[1:]) + next(g) % 2) % 3) for v in f1]
+    f2 = [f'w{(int(v[1:]) * 7 + next(g) % 5) % 140}' for v in f1]
+    for lpos in (0, 2):
+        names = ['f1', 'f2']
+        names.insert(lpos, 'label')
+        data = [f1, f2]
+        data.insert(lpos, lab)
+        for heuristic in HEURISTICS:
+            for pairwise in (False, True):
+                fails, refvals = judge(names, data, heuristic, pairwise)
+                st.count('evaluations')
+                st.count('midcard_cases')
+                if len(refvals) >= 2:
+                    st.count('nontrivial')
+                for sig, msg in fails:
+                    st.violation({'kind': 'midcard', 'label_pos': lpos, 'heuristic': heuristic, 'pairwise': pairwise}, msg, dict(sig, midcard=True))
+    return st
+
+
 def documented_names():
     names = set()
     root = '/repo'
@@ -272,7 +298,7 @@ def _seqdiff(job):
 
 def _dispatch(item):
     k, job = item
-    return {'frames': _frames, 'coverage': _coverage, 'documented': _documented, 'seqdiff': _seqdiff}[k](job)
+    return {'frames': _frames, 'coverage': _coverage, 'documented': _documented, 'seqdiff': _seqdiff, 'midcard': _midcard}[k](job)
 
 
 def run(ctx):
@@ -280,7 +306,7 @@ def run(ctx):
     for n in ((1, 2, 3) if not ctx.thorough else (1, 2, 3, 4)):
         tot = enum.BELL[n] ** 3
         jobs += [('frames', (n, lo, hi)) for lo, hi in shards(tot, 96 if n == 4 else 16)]
-    jobs += [('coverage', None), ('documented', None)]
+    jobs += [('coverage', None), ('documented', None), ('midcard', None)]
     jobs += [('seqdiff', (h, pw)) for h in ('MI-numba-randomized', 'MI', 'max-value-coverage', 'AMI') for pw in (False, True)]
     for st in pmap(_dispatch, jobs):
         ctx.stats.merge(st)
@@ -293,6 +319,8 @@ def eval_case(case):
     k = case['kind']
     if k == 'seqdiff':
         return seqdiff.replay(seq_call, seq_menu(tuple(case['job'])), case['seq'])
+    if k == 'midcard':
+        return [v['what'] for v in _midcard(None).violations if v['case']['heuristic'] == case['heuristic']]
     if k == 'frame':
         fails, _ = judge(case['columns'], case['data'], case['heuristic'], case['pairwise'])
         return [m for _, m in fails]
